@@ -163,11 +163,23 @@ Proof.
       apply in_map_iff in Hx; destruct Hx as [s [<- Hs]]; apply sqs_ast_ok; rewrite Forall_forall in H; apply H; exact Hs.
 Qed.
 
+(* what the end-to-end statements ask of the pattern argument of match/search: a literal (a pattern taken from the
+   document is rewritten by prepare_regex, known class D14, and is outside Theorem A) *)
+Definition lit_arg (a : fnarg) : Prop := match a with ArgLit _ => True | _ => False end.
+
+Lemma singular_b_eq l : singular_b l = singular l.
+Proof. induction l as [|s l IH]; [reflexivity|]. cbn [singular_b singular]. rewrite IH. destruct s as [s'|[]|]; reflexivity. Qed.
+Lemma comparable_fn_eq f : is_comparable_fn f = value_fn f.
+Proof. destruct f; reflexivity. Qed.
+Lemma lit_ast_plain l : xlit_good l -> lit_plain (lit_ast l) = true.
+Proof. destruct l as [z|k|b| ]; cbn [xlit_good lit_ast]; intros H; try reflexivity. apply plain_lit_plain. exact H. Qed.
+
 Section WfTower.
   Variable sel : Type.
   Variable sast : sel -> selector.
   Variable sgood : sel -> Prop.
   Hypothesis Hs : forall s, sgood s -> ok_selector (sast s) = true.
+  Notation patok := lit_arg.
 
   Lemma gbracket_wf s l : sgood s -> Forall sgood l -> ok_segment (gbracket_ast sel sast s l) = true.
   Proof.
@@ -200,16 +212,53 @@ Section WfTower.
     cbn [forallb] in H. rewrite andb_true_r in H. exact H.
   Qed.
 
-  Definition Watom (a : xatom sel) : Prop := agood sel sgood a -> ok_atom (atom_ast sel sast a) = true.
+  Lemma fn_wf_all :
+    (forall f, fgood sel sgood sast patok f -> ok_tfun (fn_ast sel sast f) = true)
+    /\ (forall a, arggood sel sgood sast patok a ->
+                  (is_value_type (arg_ast sel sast a) = true -> ok_arg_value (arg_ast sel sast a) = true)
+                  /\ (is_nodes_type (arg_ast sel sast a) = true -> ok_arg_nodes (arg_ast sel sast a) = true)).
+  Proof.
+    apply (xfn_xarg_ind sel).
+    - intros k a IH [Hg Hty]. destruct (IH Hg) as [Hv Hn]. destruct k; cbn [fn1_typed] in Hty.
+      + apply Hv. exact Hty.
+      + apply Hn. exact Hty.
+      + apply Hn. exact Hty.
+    - intros k a IHa b IHb [Ha [Hb [Hta [Htb Hp]]]]. destruct (IHa Ha) as [Hva _].
+      assert (Hb2 : match arg_ast sel sast b with ArgLit l => lit_plain l | _ => false end = true).
+      { destruct b as [l|abs q|f]; [|destruct Hp|destruct Hp]. apply lit_ast_plain. exact Hb. }
+      destruct k; change (ok_arg_value (arg_ast sel sast a) && match arg_ast sel sast b with ArgLit l => lit_plain l | _ => false end = true);
+        rewrite (Hva Hta), Hb2; reflexivity.
+    - intros l Hg. split; [intros _; apply lit_ast_plain; exact Hg|intros H; discriminate H].
+    - intros abs q Hq. change (Forall (gseg_good sel sgood) q) in Hq.
+      pose proof (gsegs_wf q Hq) as Hw. split.
+      + intros Hv. destruct abs; change (singular (segments_of_list (map (gseg_ast sel sast) q)) && ok_segments (segments_of_list (map (gseg_ast sel sast) q)) = true);
+          rewrite <- singular_b_eq; change (singular_b (segments_of_list (map (gseg_ast sel sast) q))) with (is_value_type (arg_ast sel sast (XAQuery sel true q)));
+          [rewrite Hv|change (is_value_type (arg_ast sel sast (XAQuery sel true q))) with (is_value_type (arg_ast sel sast (XAQuery sel false q))); rewrite Hv]; exact Hw.
+      + intros _. destruct abs; exact Hw.
+    - intros f IH Hg. specialize (IH Hg). split; [|intros H; discriminate H].
+      intros Hv. change (value_fn (fn_ast sel sast f) && ok_tfun (fn_ast sel sast f) = true).
+      change (is_comparable_fn (fn_ast sel sast f) = true) in Hv. rewrite <- comparable_fn_eq, Hv, IH. reflexivity.
+  Qed.
+  Lemma fn_wf f : fgood sel sgood sast patok f -> ok_tfun (fn_ast sel sast f) = true.
+  Proof. apply fn_wf_all. Qed.
 
-  Lemma wf_and c : (forall a, In a c -> Watom a /\ agood sel sgood a) -> ok_filter (and_ast sel sast c) = true.
+  Lemma gcmp_ast_ok c : gcmp_good sel sgood sast patok c -> ok_comparable (gcmp_ast sel sast c) = true.
+  Proof.
+    destruct c as [c|f]; cbn [gcmp_good gcmp_ast]; intros H; [apply cmp_ast_ok; exact H|].
+    destruct H as [Hg Hc]. change (value_fn (fn_ast sel sast f) && ok_tfun (fn_ast sel sast f) = true).
+    rewrite <- comparable_fn_eq, Hc, (fn_wf f Hg). reflexivity.
+  Qed.
+
+  Definition Watom (a : xatom sel) : Prop := agood sel sgood sast patok a -> ok_atom (atom_ast sel sast a) = true.
+
+  Lemma wf_and c : (forall a, In a c -> Watom a /\ agood sel sgood sast patok a) -> ok_filter (and_ast sel sast c) = true.
   Proof.
     intros Hc. unfold and_ast. apply single_or_ok.
     - intros l'. change (ok_filters (filters_of_list l') = forallb ok_filter l'). apply ok_filters_list.
     - apply forallb_forall. intros x Hx. apply in_map_iff in Hx. destruct Hx as [a [<- Ha]].
       destruct (Hc a Ha) as [HW Hg]. apply (HW Hg).
   Qed.
-  Lemma wf_or e : (forall c, In c e -> forall a, In a c -> Watom a /\ agood sel sgood a) -> ok_filter (or_ast sel sast e) = true.
+  Lemma wf_or e : (forall c, In c e -> forall a, In a c -> Watom a /\ agood sel sgood sast patok a) -> ok_filter (or_ast sel sast e) = true.
   Proof.
     intros He. unfold or_ast. apply single_or_ok.
     - intros l'. change (ok_filters (filters_of_list l') = forallb ok_filter l'). apply ok_filters_list.
@@ -219,46 +268,50 @@ Section WfTower.
   Lemma watom_all : forall n a, (asize sel a <= n)%nat -> Watom a.
   Proof.
     induction n as [|n IH]; intros a Hsz; [destruct a; cbn [asize] in Hsz; lia|].
-    intros Hg. destruct a as [neg e|neg abs q|o l r].
-    - destruct (agood_paren_inv sel sgood neg e Hg) as [Hne He].
+    intros Hg. destruct a as [neg e|neg abs q|o l r|neg f].
+    - destruct (agood_paren_inv sel sgood sast patok neg e Hg) as [Hne He].
       change (ok_filter (or_ast sel sast e) = true). apply wf_or. intros c Hc a Ha. split.
       + apply IH. pose proof (asize_in_paren sel neg e c a Hc Ha). lia.
       + destruct (He c Hc) as [_ H]. apply H. exact Ha.
-    - pose proof (agood_test_inv sel sgood neg abs q Hg) as Hq. cbn [atom_ast].
+    - pose proof (agood_test_inv sel sgood sast patok neg abs q Hg) as Hq. cbn [atom_ast].
       destruct abs; change (ok_segments (segments_of_list (map (gseg_ast sel sast) q)) = true); apply gsegs_wf; exact Hq.
-    - destruct (agood_cmp_inv sel sgood o l r Hg) as [Hl Hr]. cbn [atom_ast].
-      change (ok_comparable (cmp_ast l) && ok_comparable (cmp_ast r) = true). rewrite !cmp_ast_ok by assumption. reflexivity.
+    - destruct (agood_cmp_inv sel sgood sast patok o l r Hg) as [Hl Hr]. cbn [atom_ast].
+      change (ok_comparable (gcmp_ast sel sast l) && ok_comparable (gcmp_ast sel sast r) = true).
+      rewrite !gcmp_ast_ok by assumption. reflexivity.
+    - destruct (agood_fn_inv sel sgood sast patok neg f Hg) as [Hf Hnc]. cbn [atom_ast].
+      change (logical_fn (fn_ast sel sast f) && ok_tfun (fn_ast sel sast f) = true).
+      unfold logical_fn. rewrite <- comparable_fn_eq, Hnc, (fn_wf f Hf). reflexivity.
   Qed.
 
-  Lemma filter_wf e : egood sel sgood e -> ok_selector (SelFilter (or_ast sel sast e)) = true.
+  Lemma filter_wf e : egood sel sgood sast patok e -> ok_selector (SelFilter (or_ast sel sast e)) = true.
   Proof.
     intros [Hne He]. change (ok_filter (or_ast sel sast e) = true). apply wf_or. intros c Hc a Ha.
     split; [apply (watom_all (asize sel a) a (le_n _))|]. destruct (He c Hc) as [_ H]. apply H. exact Ha.
   Qed.
 End WfTower.
 
-Lemma tower_wf n : forall s, sgoodT n s -> ok_selector (sastT n s) = true.
+Lemma tower_wf n : forall s, sgoodT lit_arg n s -> ok_selector (sastT n s) = true.
 Proof.
   induction n as [|n IH].
   - intros s [Hs _]. apply sel_ast_ok. exact Hs.
   - intros [p|e] Hg; cbn [sgoodT sastT sgood' sast'] in *.
     + destruct Hg as [Hs _]. apply sel_ast_ok. exact Hs.
-    + apply (filter_wf (SelT n) (sastT n) (sgoodT n) IH e Hg).
+    + apply (filter_wf (SelT n) (sastT n) (sgoodT lit_arg n) IH e Hg).
 Qed.
 
 (* C01 / C05 at string level for queries with filters: query_with_path on the canonical text of any query of
    the tower -- grammar, parser.rs, evaluator incl. Filter::process, comparisons, existence tests -- returns
    exactly the RFC 9535 nodes with multiplicity, each of them a node of the caller's document *)
 Theorem filter_end_to_end n (q : list (gseg (SelT n))) (d : json) :
-  Forall (gseg_ok (SelT n) (sokT n)) q -> Forall (gseg_good (SelT n) (sgoodT n)) q -> wf_json d = true ->
+  Forall (gseg_ok (SelT n) (sokT n)) q -> Forall (gseg_good (SelT n) (sgoodT lit_arg n)) q -> wf_json d = true ->
   let ast := segments_of_list (map (gseg_ast (SelT n) (sastT n)) q) in
   exists ps,
     api_with_path (36%N :: gsegs_text (SelT n) (stextT n) q) d = Some (map (fun p => (inner p, path p)) ps)
     /\ Permutation (map node_of ps) (rfc_query ast d)
     /\ Forall (fun p => lookup d (ploc p) = Some (inner p)) ps.
 Proof.
-  intros Hok Hgood Hw ast. unfold api_with_path. rewrite (parse_filter n q Hok Hgood). fold ast.
-  assert (Hwf : wf_query ast = true) by (apply (gsegs_wf (SelT n) (sastT n) (sgoodT n) (tower_wf n) q Hgood)).
+  intros Hok Hgood Hw ast. unfold api_with_path. rewrite (parse_filter lit_arg n q Hok Hgood). fold ast.
+  assert (Hwf : wf_query ast = true) by (apply (gsegs_wf (SelT n) (sastT n) (sgoodT lit_arg n) (tower_wf n) q Hgood)).
   destruct (js_path_process_refines rx_model_search rx_spec_full rx_spec_sub rx_model_full_ok rx_model_sub_ok ast d Hwf) as [ps [E1 E2]].
   change (m_query ast d = Some ps) in E1. exists ps. rewrite E1. split; [reflexivity|]. split.
   - rewrite E2. apply (sel_major_is_permutation rx_spec_full rx_spec_sub jeqb d ast).
@@ -270,7 +323,7 @@ Qed.
 (* C05 at string level: `$[?e]` keeps exactly the children of the root for which the RFC truth value of e
    holds, in their original order (exact list equality, not a permutation) *)
 Theorem filter_children_in_order n (e : list (list (xatom (SelT n)))) (d : json) :
-  eok (SelT n) (sokT n) e -> egood (SelT n) (sgoodT n) e -> wf_json d = true ->
+  eok (SelT n) (sokT n) e -> egood (SelT n) (sgoodT lit_arg n) (sastT n) lit_arg e -> wf_json d = true ->
   let f := or_ast (SelT n) (sastT n) e in
   exists ps,
     api_with_path (36%N :: 91%N :: filter_text (SelT n) (stextT n) e ++ [93%N]) d
@@ -281,15 +334,15 @@ Proof.
   intros Hok Hgood Hw f.
   pose (q := [GBracket (SelT (S n)) (inr e) []]).
   assert (Hq1 : Forall (gseg_ok (SelT (S n)) (sokT (S n))) q) by (constructor; [split; [exact Hok|constructor]|constructor]).
-  assert (Hq2 : Forall (gseg_good (SelT (S n)) (sgoodT (S n))) q) by (constructor; [split; [exact Hgood|constructor]|constructor]).
+  assert (Hq2 : Forall (gseg_good (SelT (S n)) (sgoodT lit_arg (S n))) q) by (constructor; [split; [exact Hgood|constructor]|constructor]).
   unfold api_with_path.
-  pose proof (parse_filter (S n) q Hq1 Hq2) as Hp.
+  pose proof (parse_filter lit_arg (S n) q Hq1 Hq2) as Hp.
   assert (Et : gsegs_text (SelT (S n)) (stextT (S n)) q = 91%N :: filter_text (SelT n) (stextT n) e ++ [93%N]).
   { cbn. rewrite app_nil_r. reflexivity. }
   rewrite Et in Hp. rewrite Hp.
   set (ast := segments_of_list (map (gseg_ast (SelT (S n)) (sastT (S n))) q)).
   assert (Ea : ast = GCons (SegSel (SelFilter f)) GNil) by reflexivity.
-  assert (Hwf : wf_query ast = true) by (apply (gsegs_wf (SelT (S n)) (sastT (S n)) (sgoodT (S n)) (tower_wf (S n)) q Hq2)).
+  assert (Hwf : wf_query ast = true) by (apply (gsegs_wf (SelT (S n)) (sastT (S n)) (sgoodT lit_arg (S n)) (tower_wf (S n)) q Hq2)).
   destruct (js_path_process_refines rx_model_search rx_spec_full rx_spec_sub rx_model_full_ok rx_model_sub_ok ast d Hwf) as [ps [E1 E2]].
   change (m_query ast d = Some ps) in E1. exists ps. rewrite E1. split; [reflexivity|].
   rewrite E2, Ea. unfold r_query. autorewrite with rsteps. cbn [flat_map]. rewrite app_nil_r.
